@@ -23,6 +23,7 @@ DECLINED = ["'no later than its next scheduling point' as a timing statement",
             "allocation balance at finalize (structural part under C15/C18)"]
 ASSUMPTIONS = ["C02/C11 for the switch primitives"]
 RULES_DOC = dict(common.SHARED_DOC)
+RULES_DOC["R6"] = "= C03.R1: a join returns only after it observed TERMINATED (a unit is never reported joined, and then freed or revived, while it is still running)"
 RULES_DOC.update({
     "R1": "role-based census of every store to ABTI_thread::state",
     "R2": "callers of ABTI_thread_terminate are the five terminating roles",
@@ -326,3 +327,5 @@ def run(P, rep, tier):
     rule_R3(P, rep)
     rule_R4(P, rep)
     rule_R5(P, rep)
+    from . import C03
+    common.borrow(rep, P, C03.rule_R1, "R6")
